@@ -18,11 +18,19 @@ Proof.
   cbn [py_for fold_left]. rewrite (H st x (or_introl eq_refl)). apply IH. intros st' y Hy. apply H. right. exact Hy.
 Qed.
 
+Lemma if_some : forall {A} (c : bool) (a b : A), (if c then Some a else Some b) = Some (if c then a else b).
+Proof. intros A c a b. destruct c; reflexivity. Qed.
+
 Lemma sdict_update_nil : forall {V} (d : sdict V), sdict_update d [] = d.
 Proof. reflexivity. Qed.
 
 Lemma in_sdict_keys : forall {V} (d : sdict V) k v, In (k, v) d -> In k (map fst d).
 Proof. intros V d k v H. apply (in_map fst) in H. exact H. Qed.
+
+Lemma NoDup_keys_eq : forall {V} (d : sdict V) p a b, NoDup (map fst d) -> In (p, a) d -> In (p, b) d -> a = b.
+Proof.
+  intros V d p a b N Ha Hb. apply (sdict_get_in p a d N) in Ha. apply (sdict_get_in p b d N) in Hb. congruence.
+Qed.
 
 Lemma sdict_mem_in : forall {V} k (d : sdict V), sdict_mem k d = true <-> In k (map fst d).
 Proof.
@@ -126,6 +134,82 @@ Lemma pop_rng_state_none : forall W A, no_rng A -> pop_rng_state_gen W A = Some 
 Proof.
   intros W A H. unfold pop_rng_state_gen. cbv zeta. rewrite flat_map_nil_all; [reflexivity|].
   intros [k s] Hin. cbn [fst snd]. rewrite (H k s Hin). reflexivity.
+Qed.
+
+(* ---- at most one RNGState: _pop_rng_state returns it and removes it from the copy of app_state *)
+Definition is_rng_item (kv : pystr * stateful) : bool := sf_is_rng (snd kv).
+Definition rng_item (A : sdict stateful) : option (pystr * stateful) := hd_error (filter is_rng_item A).
+Definition non_rng (A : sdict stateful) : sdict stateful := filter (fun kv => negb (is_rng_item kv)) A.
+Definition rng_at_most_one (A : sdict stateful) : Prop :=
+  forall k s k' s', In (k, s) A -> In (k', s') A -> sf_is_rng s = true -> sf_is_rng s' = true -> k = k'.
+
+Lemma filter_none_id : forall {X} (f : X -> bool) l, filter f l = [] -> filter (fun x => negb (f x)) l = l.
+Proof.
+  intros X f l. induction l as [|x l IH]; cbn [filter]; intro H; [reflexivity|].
+  destruct (f x); [discriminate|]. cbn [negb]. rewrite IH; [reflexivity | exact H].
+Qed.
+
+Lemma rng_filter_short : forall A, NoDup (map fst A) -> rng_at_most_one A ->
+  filter is_rng_item A = [] \/ exists k s, filter is_rng_item A = [(k, s)].
+Proof.
+  intros A. induction A as [|[k s] A IH]; intros N U; [left; reflexivity|]. cbn [filter].
+  change (is_rng_item (k, s)) with (sf_is_rng s).
+  cbn [map fst] in N. inversion N as [|? ? Hk N']; subst.
+  assert (U' : rng_at_most_one A) by (intros a b c d H1 H2; apply U; right; assumption).
+  destruct (sf_is_rng s) eqn:R; [|exact (IH N' U')].
+  right. exists k, s. f_equal. destruct (filter is_rng_item A) as [|[k' s'] r] eqn:F; [reflexivity|].
+  exfalso. assert (Hin : In (k', s') (filter is_rng_item A)) by (rewrite F; left; reflexivity).
+  apply filter_In in Hin. destruct Hin as [Hin Hr]. unfold is_rng_item in Hr. cbn [snd] in Hr.
+  assert (k = k') by (apply (U k s k' s'); [left; reflexivity | right; exact Hin | exact R | exact Hr]).
+  subst k'. apply Hk. exact (in_sdict_keys _ _ _ Hin).
+Qed.
+
+Lemma sdict_del_rng : forall A k s, NoDup (map fst A) -> filter is_rng_item A = [(k, s)] -> sdict_del k A = Some (non_rng A).
+Proof.
+  intros A k s. induction A as [|[k' s'] A IH]; intros N F; [discriminate|].
+  cbn [filter] in F. change (is_rng_item (k', s')) with (sf_is_rng s') in F. cbn [map fst] in N. inversion N as [|? ? Hk N']; subst.
+  unfold non_rng. cbn [filter sdict_del]. change (is_rng_item (k', s')) with (sf_is_rng s').
+  destruct (sf_is_rng s') eqn:R.
+  - inversion F; subst. rewrite str_eqb_refl. cbn [negb]. rewrite (filter_none_id is_rng_item A H2). reflexivity.
+  - cbn [negb]. assert (Hin : In (k, s) A).
+    { assert (H : In (k, s) (filter is_rng_item A)) by (rewrite F; left; reflexivity). apply filter_In in H. exact (proj1 H). }
+    destruct (str_eqb k' k) eqn:E; [apply str_eqb_eq in E; subst; exfalso; apply Hk; exact (in_sdict_keys _ _ _ Hin)|].
+    fold (non_rng A). rewrite (IH N' F). reflexivity.
+Qed.
+
+Lemma pop_rng_state_spec : forall W A, NoDup (map fst A) -> rng_at_most_one A ->
+  pop_rng_state_gen W A = Some (rng_item A, non_rng A).
+Proof.
+  intros W A N U. unfold pop_rng_state_gen. cbv zeta.
+  assert (E : flat_map (fun it : pystr * stateful => if sf_is_rng (snd it) then [(fst it, snd it)] else []) (sdict_items A) = filter is_rng_item A).
+  { unfold sdict_items. clear N U. induction A as [|[k s] A IH]; [reflexivity|]. cbn [flat_map filter fst snd]. change (is_rng_item (k, s)) with (sf_is_rng s).
+    rewrite IH. destruct (sf_is_rng s); reflexivity. }
+  rewrite E. unfold rng_item, non_rng. destruct (rng_filter_short A N U) as [F|[k [s F]]]; rewrite F.
+  - cbn. rewrite (filter_none_id is_rng_item A F). reflexivity.
+  - cbn [sdict_of_list sdict_update fold_left fst snd sdict_set length Z.of_nat]. change (Z.of_nat 1 >? 1) with false. change (Z.of_nat 1 =? 1) with true.
+    cbv beta iota. unfold sdict_items. cbn [py_index0 obind fst snd hd_error]. rewrite (sdict_del_rng A k s N F). reflexivity.
+Qed.
+
+Lemma non_rng_in : forall A k s, In (k, s) (non_rng A) <-> In (k, s) A /\ sf_is_rng s = false.
+Proof.
+  intros A k s. unfold non_rng. rewrite filter_In. unfold is_rng_item. cbn [snd]. destruct (sf_is_rng s); cbn [negb]; intuition discriminate.
+Qed.
+
+Lemma non_rng_no_rng : forall A, no_rng (non_rng A).
+Proof. intros A k s H. apply non_rng_in in H. exact (proj2 H). Qed.
+
+Lemma non_rng_nodup : forall A, NoDup (map fst A) -> NoDup (map fst (non_rng A)).
+Proof. intros A N. unfold non_rng. apply NoDup_map_filter. exact N. Qed.
+
+Lemma rng_item_in : forall A k s, rng_item A = Some (k, s) -> In (k, s) A /\ sf_is_rng s = true.
+Proof.
+  intros A k s H. unfold rng_item in H. destruct (filter is_rng_item A) as [|x r] eqn:F; [discriminate|]. cbn [hd_error] in H. inversion H; subst x.
+  assert (Hin : In (k, s) (filter is_rng_item A)) by (rewrite F; left; reflexivity). apply filter_In in Hin. exact Hin.
+Qed.
+
+Lemma rng_item_none : forall A, rng_item A = None -> non_rng A = A.
+Proof.
+  intros A H. unfold rng_item in H. destruct (filter is_rng_item A) eqn:F; [|discriminate]. exact (filter_none_id is_rng_item A F).
 Qed.
 
 Section Keys.
@@ -367,6 +451,71 @@ Qed.
 Lemma flat_map_singletons : forall {A B} (g : A -> B) l, flat_map (fun w : list B => map (fun x => x) w) (map (fun it => [g it]) l) = map g l.
 Proof. intros A B g l. induction l as [|x l IH]; [reflexivity|]. cbn [map flat_map app]. rewrite IH. reflexivity. Qed.
 
+(* C05 (known finding): an empty app_state key makes the logical paths absolute *)
+Definition nonempty_keys (A : sdict stateful) : Prop := forall k a, In (k, a) A -> k <> [].
+
+Lemma head_not_slash : forall p h, split_head p = h -> h <> [] -> starts_slash p = false.
+Proof.
+  intros p h E Hh. destruct p as [|c r]; [reflexivity|]. unfold starts_slash. destruct (c =? 47) eqn:C; [|reflexivity].
+  exfalso. apply Hh. rewrite <- E. unfold split_head. cbn [split]. rewrite C. reflexivity.
+Qed.
+
+Lemma blocks_relative : forall A gk, nonempty_keys A ->
+  forall p, In p (map fst (concat (map (blkM A) gk)) ++ map fst (concat (map (blkF A) gk))) -> starts_slash p = false.
+Proof.
+  intros A gk NE p H.
+  assert (exists k, In p (map fst (blkM A k) ++ map fst (blkF A k))) as [k Hk].
+  { apply in_app_or in H. destruct H as [H|H]; apply in_map_iff in H; destruct H as [[q y] [E H]]; cbn [fst] in E; subst q;
+      apply in_concat in H; destruct H as [b [Hb Hx]]; apply in_map_iff in Hb; destruct Hb as [k [E _]]; subst b; exists k; apply in_or_app;
+      [left | right]; apply (in_map fst) in Hx; exact Hx. }
+  apply (head_not_slash p (encode k)); [exact (blk_heads A k p Hk)|].
+  intro E. apply encode_nil in E. subst k. unfold blkM, blkF in Hk. destruct (sdict_get [] A) as [a|] eqn:G; [|destruct Hk].
+  apply sdict_get_some_in in G. exact (NE [] a G eq_refl).
+Qed.
+
+(* C05: the storage locations of distinct leaves are distinct *)
+Definition locations_distinct (W : world) (A : sdict stateful) : Prop :=
+  forall k a k' a' p o p' o' r r', In (k, a) A -> In (k', a') A ->
+    In (p, o) (snd (flatten_s (sf_state a) k)) -> In (p', o') (snd (flatten_s (sf_state a') k')) ->
+    g_storage_path (w_is_sharded W o) r (w_rank W) p = g_storage_path (w_is_sharded W o') r' (w_rank W) p' -> p = p'.
+
+Lemma blocks_locations : forall W A gk, locations_distinct W A ->
+  forall it it' r r', In it (concat (map (blkF A) gk)) -> In it' (concat (map (blkF A) gk)) ->
+    g_storage_path (w_is_sharded W (snd it)) r (w_rank W) (fst it) = g_storage_path (w_is_sharded W (snd it')) r' (w_rank W) (fst it') ->
+    fst it = fst it'.
+Proof.
+  intros W A gk LD [p o] [p' o'] r r' H1 H2. cbn [fst snd].
+  apply in_concat in H1. destruct H1 as [b1 [Hb1 Hx1]]. apply in_map_iff in Hb1. destruct Hb1 as [k1 [E1 _]]. subst b1.
+  apply in_concat in H2. destruct H2 as [b2 [Hb2 Hx2]]. apply in_map_iff in Hb2. destruct Hb2 as [k2 [E2 _]]. subst b2.
+  unfold blkF in Hx1, Hx2. destruct (sdict_get k1 A) as [a1|] eqn:G1; [|contradiction]. destruct (sdict_get k2 A) as [a2|] eqn:G2; [|contradiction].
+  apply sdict_get_some_in in G1. apply sdict_get_some_in in G2. exact (LD k1 a1 k2 a2 p o p' o' r r' G1 G2 Hx1 Hx2).
+Qed.
+
+(* take's own load_state_dict call: the RNG state is re-applied after the state_dict() calls of the other statefuls *)
+Definition rng_loads (A : sdict stateful) : list load_ev :=
+  match rng_item A with Some (k, s) => [mkLoad (sf_id s) (sf_state s) None] | None => [] end.
+
+(* the blocks of the statefuls other than the RNGState are those of the application state minus the RNG key *)
+Lemma blocks_without_rng : forall A kr sr gk, NoDup (map fst A) -> rng_at_most_one A -> In (kr, sr) A -> sf_is_rng sr = true ->
+  concat (map (blkM (non_rng A)) gk) = concat (map (blkM A) (filter (fun k => negb (str_eqb k kr)) gk)) /\
+  concat (map (blkF (non_rng A)) gk) = concat (map (blkF A) (filter (fun k => negb (str_eqb k kr)) gk)).
+Proof.
+  intros A kr sr gk NA U HA HR.
+  assert (G : forall k, sdict_get k (non_rng A) = if str_eqb k kr then None else sdict_get k A).
+  { intro k. destruct (str_eqb k kr) eqn:E.
+    - apply str_eqb_eq in E. subst k. apply sdict_get_none. intro K. apply in_map_iff in K. destruct K as [[q s'] [Eq K]]. cbn [fst] in Eq. subst q.
+      apply non_rng_in in K. destruct K as [K1 K2]. rewrite (NoDup_keys_eq A kr s' sr NA K1 HA) in K2. congruence.
+    - destruct (sdict_get k A) as [s|] eqn:GA.
+      + apply sdict_get_some_in in GA. apply sdict_get_in; [exact (non_rng_nodup A NA)|]. apply non_rng_in. split; [exact GA|].
+        destruct (sf_is_rng s) eqn:R; [|reflexivity]. exfalso. rewrite (U k s kr sr GA HA R HR) in E. rewrite str_eqb_refl in E. discriminate.
+      + apply sdict_get_none. apply sdict_get_none in GA. intro K. apply GA. apply in_map_iff in K. destruct K as [[q s'] [Eq K]].
+        apply non_rng_in in K. apply in_map_iff. exists (q, s'). split; [exact Eq | exact (proj1 K)]. }
+  induction gk as [|k gk [IH1 IH2]]; [split; reflexivity|]. cbn [map concat filter].
+  unfold blkM at 1, blkF at 1. rewrite (G k). destruct (str_eqb k kr) eqn:E; cbn [negb app map concat].
+  - split; assumption.
+  - rewrite IH1, IH2. unfold blkM at 2, blkF at 2. split; reflexivity.
+Qed.
+
 (* ================================================================== take *)
 Definition leaf_serves (W : world) (st : store) (l : lentry) (o : obj) : Prop :=
   match l with LPrim v _ => v = o | _ => w_read W st l = Some o end.
@@ -401,38 +550,28 @@ Section Take.
     let v := w_manifest_for_rank W (mkMeta (w_world_size W) (global_of ms)) (w_rank W) in
     NoDup (map fst (fst v)) /\ (forall p e, In (p, e) (fst v) <-> In (p, e) m) /\ snd v = [].
 
-  Lemma take_good : forall A repl is_async custom x path gk,
-    NoDup (map fst A) -> no_rng A -> gather_keys_gen W (sdict_keys A) = Some gk -> NoDup gk ->
+  Lemma take_tail_good : forall A gk repl is_async custom xt,
+    NoDup gk ->
     (forall it it' r r', In it (concat (map (blkF A) gk)) -> In it' (concat (map (blkF A) gk)) ->
        g_storage_path (w_is_sharded W (snd it)) r (w_rank W) (fst it) = g_storage_path (w_is_sharded W (snd it')) r' (w_rank W) (fst it') ->
        fst it = fst it') ->
     (forall p, In p (map fst (concat (map (blkM A) gk)) ++ map fst (concat (map (blkF A) gk))) -> starts_slash p = false) ->
     exists st md x',
-      take_impl_gen W path A repl [] is_async custom x = Some ((st, md), x') /\
+      take_impl_tail_gen W repl [] is_async custom (concat (map (blkM A) gk)) (concat (map (blkF A) gk)) xt = Some ((st, md), x') /\
       md_world_size md = w_world_size W /\
       good_view W (concat (map (blkM A) gk)) (concat (map (blkF A) gk)) st (fst (w_manifest_for_rank W md (w_rank W))) /\
       snd (w_manifest_for_rank W md (w_rank W)) = [] /\
-      fx_loads x' = fx_loads x /\
-      fx_writes x' = fx_writes x ++ map (wcall_of W (w_calc_replicated W (concat (map (blkF A) gk)) repl) is_async custom) (concat (map (blkF A) gk)) /\
+      fx_loads x' = fx_loads xt /\
+      fx_writes x' = fx_writes xt ++ map (wcall_of W (w_calc_replicated W (concat (map (blkF A) gk)) repl) is_async custom) (concat (map (blkF A) gk)) /\
       exists M1 ms, w_consolidate W (w_all_gather W _ M1) = Some ms /\ md_manifest md = global_of ms /\ NoDup (map fst M1) /\
                     (forall p, In p (map fst M1) -> starts_slash p = false) /\
                     (forall p e, In (p, e) (fst (w_manifest_for_rank W md (w_rank W))) <-> In (p, e) M1).
   Proof.
-    intros A repl is_async custom x path gk NA NR GK Ngk Hloc Hrel.
-    unfold take_impl_gen. rewrite (pop_rng_state_none W A NR). cbn [obind fst snd]. rewrite GK. cbn [obind].
-    set (M0 := concat (map (blkM A) gk)). set (F0 := concat (map (blkF A) gk)).
-    rewrite (py_for_fold _ _ (fun st k => (sdict_update (fst st) (blkM A k), sdict_update (snd st) (blkF A k)))).
-    2:{ intros [m f] k _. cbn [fst snd]. unfold blkM, blkF. destruct (sdict_mem k A) eqn:E.
-        - unfold sdict_mem in E. destruct (sdict_get k A) as [s|]; [|discriminate]. cbn [obind].
-          rewrite flatten_run_gen_correct. cbn [obind fst snd]. reflexivity.
-        - unfold sdict_mem in E. destruct (sdict_get k A) as [s|]; [discriminate|]. reflexivity. }
-    match goal with |- context [fold_left ?f gk ?z] =>
-      replace (fold_left f gk z) with (fold_left (fun d k => sdict_update d (blkM A k)) gk [], fold_left (fun d k => sdict_update d (blkF A k)) gk [])
-        by (symmetry; exact (fold_left_pair (fun d k => sdict_update d (blkM A k)) (fun d k => sdict_update d (blkF A k)) gk [] [])) end.
+    intros A gk repl is_async custom xt Ngk Hloc Hrel.
+    unfold take_impl_tail_gen.
+    set (M0 := concat (map (blkM A) gk)) in *. set (F0 := concat (map (blkF A) gk)) in *.
     pose proof (all_blocks_nodup A gk Ngk) as NMF. fold M0 F0 in NMF.
-    rewrite (fold_update_blocks (blkM A) gk []) by (cbn [app]; exact (NoDup_app_l _ _ NMF)).
-    rewrite (fold_update_blocks (blkF A) gk []) by (cbn [app]; exact (NoDup_app_r _ _ NMF)).
-    cbn [app]. fold M0 F0. cbv beta iota delta [obind].
+    cbv beta iota delta [obind].
     set (RP := w_calc_replicated W F0 repl).
     rewrite (py_for_fold _ _ (wstep W RP is_async custom)).
     2:{ intros [[[oe l2w] pe] fx] it _. unfold wstep. cbv zeta. fold RP.
@@ -442,7 +581,7 @@ Section Take.
         destruct (is_primitive_entry _); reflexivity. }
     unfold sdict_items.
     assert (NF : NoDup (map fst F0)) by exact (NoDup_app_r _ _ NMF).
-    rewrite (wloop_spec0 W RP is_async custom F0 x NF). cbv beta iota.
+    rewrite (wloop_spec0 W RP is_async custom F0 xt NF). cbv beta iota.
     set (OE := OEs W RP F0). set (PE := PEs W RP F0). set (LW := L2Ws W RP is_async custom F0).
     set (nf := filter (fun it => negb (inl W it)) F0).
     assert (KO : map fst OE = map fst nf) by (unfold OE, OEs; rewrite map_map; reflexivity).
@@ -461,7 +600,7 @@ Section Take.
       rewrite map_map. cbn [wr_path wr_of].
       apply (NoDup_map_inj_in _ fst); [apply NoDup_map_filter; exact NF|].
       intros a b Ha Hb E. apply filter_In in Ha. apply filter_In in Hb. exact (Hloc a b _ _ (proj1 Ha) (proj1 Hb) E). }
-    match goal with |- context [if negb (w_batching_disabled W) then ?a else ?b] => set (J := if negb (w_batching_disabled W) then a else b) end.
+    match goal with |- context [if ?c then Some ?a else Some ?b] => set (J := if c then Some a else Some b) end.
     assert (EJ : exists ents WR', J = Some (WR', sdict_with_values es' ents) /\ Forall2 (stored_as WR WR') (sdict_values es') ents).
     { unfold J. destruct (w_batching_disabled W); cbn [negb].
       - exists (sdict_values es'), WR. split; [unfold sdict_with_values, sdict_values; rewrite combine_fst_snd; reflexivity|].
@@ -535,6 +674,93 @@ Section Take.
         unfold ent_of. rewrite I. reflexivity.
       + destruct (OEr (p, o) H I) as [l' H1]. exists l'. apply InM1. right. right. exact H1.
   Qed.
+
+  (* _take_impl: the RNGState (at most one) is flattened first and re-applied after the loop over the other statefuls *)
+  Lemma take_good : forall A repl is_async custom x path,
+    NoDup (map fst A) -> rng_at_most_one A -> nonempty_keys A -> locations_distinct W A ->
+    exists gk st md x',
+      NoDup gk /\ (forall k, In k (map fst A) -> In k gk) /\
+      take_impl_gen W path A repl [] is_async custom x = Some ((st, md), x') /\
+      md_world_size md = w_world_size W /\
+      good_view W (concat (map (blkM A) gk)) (concat (map (blkF A) gk)) st (fst (w_manifest_for_rank W md (w_rank W))) /\
+      snd (w_manifest_for_rank W md (w_rank W)) = [] /\
+      fx_loads x' = fx_loads x ++ rng_loads A /\
+      fx_writes x' = fx_writes x ++ map (wcall_of W (w_calc_replicated W (concat (map (blkF A) gk)) repl) is_async custom) (concat (map (blkF A) gk)) /\
+      exists M1 ms, w_consolidate W (w_all_gather W _ M1) = Some ms /\ md_manifest md = global_of ms /\ NoDup (map fst M1) /\
+                    (forall p, In p (map fst M1) -> starts_slash p = false) /\
+                    (forall p e, In (p, e) (fst (w_manifest_for_rank W md (w_rank W))) <-> In (p, e) M1).
+  Proof.
+    intros A repl is_async custom x path NA U NE LD.
+    unfold take_impl_gen. rewrite (pop_rng_state_spec W A NA U). cbn [obind fst snd].
+    destruct (gather_keys_spec W C12_all_gather_has_own (sdict_keys (non_rng A))) as (gk' & GK & Ngk' & KA').
+    assert (LOOP : forall dm df,
+      py_for gk' (dm, df) (fun st it =>
+        let '(v_manifest, v_flattened) := st in
+        if sdict_mem it (non_rng A) then
+          t <- sdict_get it (non_rng A) ;; t2 <- flatten_run_gen (sf_state t) it ;;
+          Some (sdict_update v_manifest (lift_conts (fst t2)), sdict_update v_flattened (snd t2))
+        else Some (v_manifest, v_flattened))
+      = Some (fold_left (fun d k => sdict_update d (blkM (non_rng A) k)) gk' dm, fold_left (fun d k => sdict_update d (blkF (non_rng A) k)) gk' df)).
+    { intros dm df. rewrite (py_for_fold _ _ (fun st k => (sdict_update (fst st) (blkM (non_rng A) k), sdict_update (snd st) (blkF (non_rng A) k)))).
+      - rewrite (fold_left_pair (fun d k => sdict_update d (blkM (non_rng A) k)) (fun d k => sdict_update d (blkF (non_rng A) k)) gk' dm df). reflexivity.
+      - intros [m f] k _. cbn [fst snd]. unfold blkM, blkF. destruct (sdict_mem k (non_rng A)) eqn:E.
+        + unfold sdict_mem in E. destruct (sdict_get k (non_rng A)) as [s|]; [|discriminate]. cbn [obind].
+          rewrite flatten_run_gen_correct. cbn [obind fst snd]. reflexivity.
+        + unfold sdict_mem in E. destruct (sdict_get k (non_rng A)) as [s|]; [discriminate|]. reflexivity. }
+    destruct (rng_item A) as [[kr sr]|] eqn:RI.
+    - (* an RNGState under key kr *)
+      destruct (rng_item_in A kr sr RI) as [HA HR]. cbn [fst snd].
+      rewrite flatten_run_gen_correct. cbn [obind fst snd]. rewrite GK. cbn [obind].
+      set (gk := kr :: filter (fun k => negb (str_eqb k kr)) gk').
+      assert (Ngk : NoDup gk).
+      { unfold gk. constructor; [|apply NoDup_filter; exact Ngk']. intro K. apply filter_In in K. destruct K as [_ K]. rewrite str_eqb_refl in K. discriminate. }
+      assert (KA : forall k, In k (map fst A) -> In k gk).
+      { intros k Hk. unfold gk. destruct (str_eqb k kr) eqn:E; [apply str_eqb_eq in E; left; symmetry; exact E|]. right. apply filter_In.
+        split; [|rewrite E; reflexivity]. apply KA'. apply in_map_iff in Hk. destruct Hk as [[q s] [Eq Hq]]. cbn [fst] in Eq. subst q.
+        apply in_map_iff. exists (k, s). split; [reflexivity|]. apply non_rng_in. split; [exact Hq|].
+        destruct (sf_is_rng s) eqn:R; [|reflexivity]. exfalso. rewrite (U k s kr sr Hq HA R HR) in E. rewrite str_eqb_refl in E. discriminate. }
+      destruct (blocks_without_rng A kr sr gk' NA U HA HR) as [BM BF].
+      pose proof (all_blocks_nodup A gk Ngk) as NMF.
+      assert (EBM : blkM A kr = lift_conts (fst (flatten_s (sf_state sr) kr))) by (unfold blkM; rewrite (sdict_get_in kr sr A NA HA); reflexivity).
+      assert (EBF : blkF A kr = snd (flatten_s (sf_state sr) kr)) by (unfold blkF; rewrite (sdict_get_in kr sr A NA HA); reflexivity).
+      assert (EM : concat (map (blkM A) gk) = lift_conts (fst (flatten_s (sf_state sr) kr)) ++ concat (map (blkM (non_rng A)) gk'))
+        by (unfold gk; cbn [map concat]; rewrite EBM, BM; reflexivity).
+      assert (EF : concat (map (blkF A) gk) = snd (flatten_s (sf_state sr) kr) ++ concat (map (blkF (non_rng A)) gk'))
+        by (unfold gk; cbn [map concat]; rewrite EBF, BF; reflexivity).
+      assert (EMM : fold_left (fun d k => sdict_update d (blkM (non_rng A) k)) gk' (sdict_update [] (lift_conts (fst (flatten_s (sf_state sr) kr))))
+                    = concat (map (blkM A) gk)).
+      { rewrite (sdict_update_nodup (lift_conts (fst (flatten_s (sf_state sr) kr))) [])
+          by (cbn [app]; rewrite <- EBM; exact (NoDup_app_l _ _ (blk_nodup A kr))).
+        cbn [app]. rewrite (fold_update_blocks (blkM (non_rng A)) gk') by (rewrite <- EM; exact (NoDup_app_l _ _ NMF)). symmetry. exact EM. }
+      assert (EFF : fold_left (fun d k => sdict_update d (blkF (non_rng A) k)) gk' (sdict_update [] (snd (flatten_s (sf_state sr) kr)))
+                    = concat (map (blkF A) gk)).
+      { rewrite (sdict_update_nodup (snd (flatten_s (sf_state sr) kr)) [])
+          by (cbn [app]; rewrite <- EBF; exact (NoDup_app_r _ _ (blk_nodup A kr))).
+        cbn [app]. rewrite (fold_update_blocks (blkF (non_rng A)) gk') by (rewrite <- EF; exact (NoDup_app_r _ _ NMF)). symmetry. exact EF. }
+      match goal with |- context [py_for gk' (?dm, ?df) ?b] => replace (py_for gk' (dm, df) b) with
+        (Some (concat (map (blkM A) gk), concat (map (blkF A) gk)))
+        by (symmetry; rewrite <- EMM, <- EFF; exact (LOOP dm df)) end.
+      cbn [obind].
+      destruct (take_tail_good A gk repl is_async custom (fx_load x sr (sf_state sr) None) Ngk (blocks_locations W A gk LD) (blocks_relative A gk NE))
+        as (st & md & x' & ET & WS & GV & MG & L1 & W1 & HM1).
+      exists gk, st, md, x'. split; [exact Ngk|]. split; [exact KA|]. split; [exact ET|]. split; [exact WS|]. split; [exact GV|]. split; [exact MG|].
+      split; [|split; [exact W1 | exact HM1]]. rewrite L1. unfold rng_loads. rewrite RI. reflexivity.
+    - (* no RNGState *)
+      rewrite (rng_item_none A RI) in *. rewrite GK. cbn [obind].
+      pose proof (all_blocks_nodup A gk' Ngk') as NMF.
+      assert (EMM : fold_left (fun d k => sdict_update d (blkM A k)) gk' [] = concat (map (blkM A) gk'))
+        by (rewrite (fold_update_blocks (blkM A) gk' []) by (cbn [app]; exact (NoDup_app_l _ _ NMF)); reflexivity).
+      assert (EFF : fold_left (fun d k => sdict_update d (blkF A k)) gk' [] = concat (map (blkF A) gk'))
+        by (rewrite (fold_update_blocks (blkF A) gk' []) by (cbn [app]; exact (NoDup_app_r _ _ NMF)); reflexivity).
+      match goal with |- context [py_for gk' (?dm, ?df) ?b] => replace (py_for gk' (dm, df) b) with
+        (Some (concat (map (blkM A) gk'), concat (map (blkF A) gk')))
+        by (symmetry; rewrite <- EMM, <- EFF; exact (LOOP dm df)) end.
+      cbn [obind].
+      destruct (take_tail_good A gk' repl is_async custom x Ngk' (blocks_locations W A gk' LD) (blocks_relative A gk' NE))
+        as (st & md & x' & ET & WS & GV & MG & L1 & W1 & HM1).
+      exists gk', st, md, x'. split; [exact Ngk'|]. split; [exact KA'|]. split; [exact ET|]. split; [exact WS|]. split; [exact GV|]. split; [exact MG|].
+      split; [|split; [exact W1 | exact HM1]]. rewrite L1. unfold rng_loads. rewrite RI, app_nil_r. reflexivity.
+  Qed.
 End Take.
 
 (* ================================================================== restore: helpers *)
@@ -603,10 +829,6 @@ Proof.
   - intro H. exists (p, MCont e). split; [exact H | left; reflexivity].
 Qed.
 
-Lemma NoDup_keys_eq : forall {V} (d : sdict V) p a b, NoDup (map fst d) -> In (p, a) d -> In (p, b) d -> a = b.
-Proof.
-  intros V d p a b N Ha Hb. apply (sdict_get_in p a d N) in Ha. apply (sdict_get_in p b d N) in Hb. congruence.
-Qed.
 
 (* ================================================================== the loop of _get_state_dict_for_manifest *)
 Definition gstep (st : sdict obj * sdict mentry * list rreq * sdict fut * effects) (it : pystr * mentry) :=
@@ -709,10 +931,10 @@ Section Restore.
     cbn [flat_map app fx_loads fx_writes fx_preps fx_done] in E. rewrite app_nil_r in E. rewrite E. clear E.
     cbv beta iota delta [obind].
     set (CE := flat_map ce_of m). set (RR := flat_map rr_of m). set (FU := flat_map (fut_of tf) m).
-    set (RR' := if negb (w_batching_disabled W) then w_batch_read W RR else RR).
-    assert (HRR : forall r, In r RR' <-> In r RR) by (intro r; unfold RR'; destruct (negb _); [apply C16_batch_read_same | tauto]).
-    replace (if negb (w_batching_disabled W) then Some (w_batch_read W RR) else Some RR) with (Some RR')
-      by (unfold RR'; destruct (negb _); reflexivity).
+    rewrite if_some. cbv beta iota.
+    match goal with |- context [exec_read_fx W _ _ (if ?c then ?a else ?b) _ _] => set (RR' := if c then a else b) end.
+    assert (HRR : forall r, In r RR' <-> In r RR)
+      by (intro r; unfold RR'; match goal with |- context [if ?c then _ else _] => destruct c end; first [apply C16_batch_read_same | tauto]).
     set (B := match mb with Some b => b | None => w_memory_budget W end).
     replace (match mb with Some v => Some v | None => Some (w_memory_budget W) end) with (Some B) by (unfold B; destruct mb; reflexivity).
     cbv beta iota.
@@ -876,35 +1098,19 @@ Definition expected_preps (W : world) (T : sdict stateful) (view : sdict mentry)
                      | None => []
                      end) gk.
 
-(* C05 (known finding): an empty app_state key makes the logical paths absolute *)
-Definition nonempty_keys (A : sdict stateful) : Prop := forall k a, In (k, a) A -> k <> [].
-
-Lemma head_not_slash : forall p h, split_head p = h -> h <> [] -> starts_slash p = false.
-Proof.
-  intros p h E Hh. destruct p as [|c r]; [reflexivity|]. unfold starts_slash. destruct (c =? 47) eqn:C; [|reflexivity].
-  exfalso. apply Hh. rewrite <- E. unfold split_head. cbn [split]. rewrite C. reflexivity.
-Qed.
-
-Lemma blocks_relative : forall A gk, nonempty_keys A ->
-  forall p, In p (map fst (concat (map (blkM A) gk)) ++ map fst (concat (map (blkF A) gk))) -> starts_slash p = false.
-Proof.
-  intros A gk NE p H.
-  assert (exists k, In p (map fst (blkM A k) ++ map fst (blkF A k))) as [k Hk].
-  { apply in_app_or in H. destruct H as [H|H]; apply in_map_iff in H; destruct H as [[q y] [E H]]; cbn [fst] in E; subst q;
-      apply in_concat in H; destruct H as [b [Hb Hx]]; apply in_map_iff in Hb; destruct Hb as [k [E _]]; subst b; exists k; apply in_or_app;
-      [left | right]; apply (in_map fst) in Hx; exact Hx. }
-  apply (head_not_slash p (encode k)); [exact (blk_heads A k p Hk)|].
-  intro E. apply encode_nil in E. subst k. unfold blkM, blkF in Hk. destruct (sdict_get [] A) as [a|] eqn:G; [|destruct Hk].
-  apply sdict_get_some_in in G. exact (NE [] a G eq_refl).
-Qed.
+(* ... and, last, the RNGState of the targets (if any): restore loads it after every other stateful *)
+Definition rng_restore_load (A T : sdict stateful) (strict : bool) : list load_ev :=
+  match rng_item T with
+  | Some (k, t) => match sdict_get k A with Some a => [mkLoad (sf_id t) (sf_state a) (strict_of t strict)] | None => [] end
+  | None => []
+  end.
+Definition all_expected_loads (A T : sdict stateful) (strict : bool) (gk : list pystr) : list load_ev :=
+  expected_loads A (non_rng T) strict gk ++ rng_restore_load A T strict.
+Definition all_expected_preps (W : world) (T : sdict stateful) (view : sdict mentry) (gk : list pystr) : list (mentry * option obj) :=
+  expected_preps W (non_rng T) view gk ++
+  match rng_item T with Some (k, t) => flat_map (prep_of (tensor_targets W t k)) view | None => [] end.
 
 Definition wf_app (A : sdict stateful) : Prop := forall k a, In (k, a) A -> wf_obj (sf_state a).
-
-(* C05: the storage locations of distinct leaves are distinct *)
-Definition locations_distinct (W : world) (A : sdict stateful) : Prop :=
-  forall k a k' a' p o p' o' r r', In (k, a) A -> In (k', a') A ->
-    In (p, o) (snd (flatten_s (sf_state a) k)) -> In (p', o') (snd (flatten_s (sf_state a') k')) ->
-    g_storage_path (w_is_sharded W o) r (w_rank W) p = g_storage_path (w_is_sharded W o') r' (w_rank W) p' -> p = p'.
 
 Lemma blocks_key : forall A gk k a, NoDup (map fst A) -> In (k, a) A -> In k gk ->
   (forall p e, split_head p = encode k -> (In (p, MCont e) (concat (map (blkM A) gk)) <-> In (p, e) (fst (flatten_s (sf_state a) k)))) /\
@@ -970,60 +1176,65 @@ Section TakeRestore.
   Qed.
 
   Lemma take_ok : forall A repl is_async custom path,
-    NoDup (map fst A) -> no_rng A -> nonempty_keys A -> locations_distinct W A ->
+    NoDup (map fst A) -> rng_at_most_one A -> nonempty_keys A -> locations_distinct W A ->
     exists gkA st md x1,
-      gather_keys_gen W (sdict_keys A) = Some gkA /\ NoDup gkA /\ (forall k, In k (map fst A) -> In k gkA) /\
+      NoDup gkA /\ (forall k, In k (map fst A) -> In k gkA) /\
       take_impl_gen W path A repl [] is_async custom fx0 = Some ((st, md), x1) /\
       good_view W (concat (map (blkM A) gkA)) (concat (map (blkF A) gkA)) st (fst (w_manifest_for_rank W md (w_rank W))) /\
       snd (w_manifest_for_rank W md (w_rank W)) = [] /\
-      fx_loads x1 = [] /\
+      fx_loads x1 = rng_loads A /\
       fx_writes x1 = map (wcall_of W (w_calc_replicated W (concat (map (blkF A) gkA)) repl) is_async custom) (concat (map (blkF A) gkA)) /\
       exists M1 ms, w_consolidate W (w_all_gather W _ M1) = Some ms /\ md_manifest md = global_of ms /\ NoDup (map fst M1) /\
                     (forall p, In p (map fst M1) -> starts_slash p = false) /\
                     (forall p e, In (p, e) (fst (w_manifest_for_rank W md (w_rank W))) <-> In (p, e) M1).
   Proof.
-    intros A repl is_async custom path NA RA NE LD.
-    destruct (gather_keys_spec W C12_all_gather_has_own (sdict_keys A)) as (gkA & GA & NgA & KA).
-    destruct (take_good W C06_partition_keeps C17_store_exact C01_batch_write_exact C06_consolidate_total C07_view_same_world
-                A repl is_async custom fx0 path gkA NA RA GA NgA) as (st & md & x1 & ET & _ & GV & MG & L1 & W1 & HM1).
-    { intros [p o] [p' o'] r r' H1 H2. cbn [fst snd].
-      apply in_concat in H1. destruct H1 as [b1 [Hb1 Hx1]]. apply in_map_iff in Hb1. destruct Hb1 as [k1 [E1 _]]. subst b1.
-      apply in_concat in H2. destruct H2 as [b2 [Hb2 Hx2]]. apply in_map_iff in Hb2. destruct Hb2 as [k2 [E2 _]]. subst b2.
-      unfold blkF in Hx1, Hx2. destruct (sdict_get k1 A) as [a1|] eqn:G1; [|contradiction]. destruct (sdict_get k2 A) as [a2|] eqn:G2; [|contradiction].
-      apply sdict_get_some_in in G1. apply sdict_get_some_in in G2. exact (LD k1 a1 k2 a2 p o p' o' r r' G1 G2 Hx1 Hx2). }
-    { exact (blocks_relative A gkA NE). }
+    intros A repl is_async custom path NA U NE LD.
+    destruct (take_good W C12_all_gather_has_own C06_partition_keeps C17_store_exact C01_batch_write_exact C06_consolidate_total C07_view_same_world
+                A repl is_async custom fx0 path NA U NE LD) as (gkA & st & md & x1 & NgA & KA & ET & _ & GV & MG & L1 & W1 & HM1).
     exists gkA, st, md, x1. repeat (split; [assumption|]). exact HM1.
   Qed.
 
-  (* (a) take, then restore of any subset of the statefuls *)
-  Theorem take_restore_no_rng : forall A repl is_async custom path T strict,
-    NoDup (map fst A) -> no_rng A -> wf_app A -> nonempty_keys A -> locations_distinct W A ->
-    NoDup (map fst T) -> no_rng T -> (forall k t, In (k, t) T -> exists a, In (k, a) A) ->
+  (* (a) take, then restore of any subset of the statefuls; at most one RNGState on either side *)
+  Theorem take_restore : forall A repl is_async custom path T strict,
+    NoDup (map fst A) -> rng_at_most_one A -> wf_app A -> nonempty_keys A -> locations_distinct W A ->
+    NoDup (map fst T) -> rng_at_most_one T -> (forall k t, In (k, t) T -> exists a, In (k, a) A) ->
     exists st md x1 gkA gk x2,
-      gather_keys_gen W (sdict_keys A) = Some gkA /\
+      NoDup gkA /\ (forall k, In k (map fst A) -> In k gkA) /\
       take_impl_gen W path A repl [] is_async custom fx0 = Some ((st, md), x1) /\
-      fx_loads x1 = [] /\
+      fx_loads x1 = rng_loads A /\
       fx_writes x1 = map (wcall_of W (w_calc_replicated W (concat (map (blkF A) gkA)) repl) is_async custom) (concat (map (blkF A) gkA)) /\
-      gather_keys_gen W (sdict_keys T) = Some gk /\ NoDup gk /\ (forall k, In k (map fst T) -> In k gk) /\
+      gather_keys_gen W (sdict_keys (non_rng T)) = Some gk /\ NoDup gk /\ (forall k, In k (map fst (non_rng T)) -> In k gk) /\
       restore_gen W (mkSnap md st) T strict fx0 = Some x2 /\
-      fx_loads x2 = expected_loads A T strict gk /\
-      fx_preps x2 = expected_preps W T (fst (w_manifest_for_rank W md (w_rank W))) gk.
+      fx_loads x2 = all_expected_loads A T strict gk /\
+      fx_preps x2 = all_expected_preps W T (fst (w_manifest_for_rank W md (w_rank W))) gk.
   Proof.
-    intros A repl is_async custom path T strict NA RA WA NE LD NT RT TA.
-    destruct (take_ok A repl is_async custom path NA RA NE LD) as (gkA & st & md & x1 & GA & NgA & KA & ET & GV & MG & L1 & W1 & _).
-    destruct (gather_keys_spec W C12_all_gather_has_own (sdict_keys T)) as (gk & GT & NgT & KT).
+    intros A repl is_async custom path T strict NA UA WA NE LD NT UT TA.
+    destruct (take_ok A repl is_async custom path NA UA NE LD) as (gkA & st & md & x1 & NgA & KA & ET & GV & MG & L1 & W1 & _).
+    destruct (gather_keys_spec W C12_all_gather_has_own (sdict_keys (non_rng T))) as (gk & GT & NgT & KT).
     exists st, md, x1, gkA, gk.
     pose proof (all_blocks_nodup A gkA NgA) as NMF.
-    destruct (restore_loop A gkA (mkSnap md st) T strict (Some (w_memory_budget W))
-                (fun fx k => obind (load_stateful_gen W (mkSnap md st) k (sdict_get k T) strict st (Some (w_memory_budget W)) fx) Some)
-                NA WA KA GV MG (NoDup_app_r _ _ NMF) TA NT (fun fx k => eq_refl) gk fx0) as (x2 & E2 & _ & L2 & P2).
+    assert (TA' : forall k t, In (k, t) (non_rng T) -> exists a, In (k, a) A) by (intros k t H; apply non_rng_in in H; exact (TA k t (proj1 H))).
+    destruct (restore_loop A gkA (mkSnap md st) (non_rng T) strict (Some (w_memory_budget W))
+                (fun fx k => obind (load_stateful_gen W (mkSnap md st) k (sdict_get k (non_rng T)) strict st (Some (w_memory_budget W)) fx) Some)
+                NA WA KA GV MG (NoDup_app_r _ _ NMF) TA' (non_rng_nodup T NT) (fun fx k => eq_refl) gk fx0) as (x2 & E2 & D2 & L2 & P2).
     { intros l r []. }
-    exists x2. split; [exact GA|]. split; [exact ET|]. split; [exact L1|]. split; [exact W1|]. split; [exact GT|].
-    split; [exact NgT|]. split; [exact KT|].
-    split; [|split; [exact L2 | exact P2]].
-    unfold restore_gen. rewrite (pop_rng_state_none W T RT). cbn [obind fst snd snap_store]. rewrite GT. cbn [obind].
-    match goal with |- context [py_for gk fx0 ?b] => replace (py_for gk fx0 b) with (Some x2) by (rewrite <- E2; reflexivity) end.
-    reflexivity.
+    assert (FIN : exists x3, restore_gen W (mkSnap md st) T strict fx0 = Some x3 /\
+                             fx_loads x3 = all_expected_loads A T strict gk /\
+                             fx_preps x3 = all_expected_preps W T (fst (w_manifest_for_rank W md (w_rank W))) gk).
+    { unfold restore_gen. rewrite (pop_rng_state_spec W T NT UT). cbn [obind fst snd snap_store]. rewrite GT. cbn [obind].
+      match goal with |- context [py_for gk fx0 ?b] => replace (py_for gk fx0 b) with (Some x2) by (rewrite <- E2; reflexivity) end.
+      cbn [obind]. unfold all_expected_loads, all_expected_preps, rng_restore_load.
+      destruct (rng_item T) as [[kT tT]|] eqn:RI.
+      - destruct (rng_item_in T kT tT RI) as [HT _]. destruct (TA kT tT HT) as [a HA]. cbn [fst snd].
+        destruct (blocks_key A gkA kT a NA HA (KA kT (in_sdict_keys _ _ _ HA))) as [HM HF].
+        destruct (load_stateful_spec W C16_batch_read_same C07_elasticity_noop _ _ (mkSnap md st) kT tT strict (Some (w_memory_budget W)) x2 (sf_state a)
+                    GV MG (NoDup_app_r _ _ NMF) (WA kT a HA) D2 HM HF) as (x3 & E3 & L3 & _ & _ & P3).
+        cbn [snap_store] in E3. rewrite E3. cbn [obind]. exists x3. split; [reflexivity|].
+        rewrite (sdict_get_in kT a A NA HA). cbn [snap_metadata] in P3. rewrite L3, L2, P3, P2. cbn [app fx_loads fx_preps fx0]. split; reflexivity.
+      - exists x2. split; [reflexivity|]. rewrite L2, P2, !app_nil_r. cbn [app fx_loads fx_preps fx0]. split; reflexivity. }
+    destruct FIN as (x3 & E3 & L3 & P3). exists x3.
+    split; [exact NgA|]. split; [exact KA|]. split; [exact ET|]. split; [exact L1|]. split; [exact W1|]. split; [exact GT|].
+    split; [exact NgT|]. split; [exact KT|]. split; [exact E3|]. split; [exact L3 | exact P3].
   Qed.
 
   Lemma blocks_in : forall A gk, NoDup (map fst A) -> (forall k, In k (map fst A) -> In k gk) ->
@@ -1044,7 +1255,7 @@ Section TakeRestore.
 
   (* (b) the manifest take wrote, as the rank sees it: every container entry of flatten, and exactly one entry per leaf *)
   Theorem take_manifest : forall A repl is_async custom path,
-    NoDup (map fst A) -> no_rng A -> nonempty_keys A -> locations_distinct W A ->
+    NoDup (map fst A) -> rng_at_most_one A -> nonempty_keys A -> locations_distinct W A ->
     exists st md x1,
       take_impl_gen W path A repl [] is_async custom fx0 = Some ((st, md), x1) /\
       let v := fst (w_manifest_for_rank W md (w_rank W)) in
@@ -1056,7 +1267,7 @@ Section TakeRestore.
                     (forall p, In p (map fst M1) -> starts_slash p = false) /\ (forall p e, In (p, e) v <-> In (p, e) M1).
   Proof.
     intros A repl is_async custom path NA RA NE LD.
-    destruct (take_ok A repl is_async custom path NA RA NE LD) as (gkA & st & md & x1 & GA & NgA & KA & ET & (V1 & G2 & G3 & G4) & MG & L1 & W1 & HM1).
+    destruct (take_ok A repl is_async custom path NA RA NE LD) as (gkA & st & md & x1 & NgA & KA & ET & (V1 & G2 & G3 & G4) & MG & L1 & W1 & HM1).
     destruct (blocks_in A gkA NA KA) as [BM BF].
     exists st, md, x1. split; [exact ET|]. cbv zeta. split; [exact V1|]. split; [|split; [|split; [|exact HM1]]].
     - intros p e. rewrite G2. apply BM.
@@ -1066,7 +1277,7 @@ Section TakeRestore.
 
   (* (c) read_object of the path of a leaf *)
   Theorem take_read_object : forall A repl is_async custom path out mb,
-    NoDup (map fst A) -> no_rng A -> nonempty_keys A -> locations_distinct W A ->
+    NoDup (map fst A) -> rng_at_most_one A -> nonempty_keys A -> locations_distinct W A ->
     exists st md x1,
       take_impl_gen W path A repl [] is_async custom fx0 = Some ((st, md), x1) /\
       (forall k a p o, In (k, a) A -> In (p, o) (snd (flatten_s (sf_state a) k)) ->
@@ -1075,7 +1286,7 @@ Section TakeRestore.
          read_object_gen W (mkSnap md st) (str_of_Z (w_rank W) ++ 47 :: p) out mb fx0 = None).
   Proof.
     intros A repl is_async custom path out mb NA RA NE LD.
-    destruct (take_ok A repl is_async custom path NA RA NE LD) as (gkA & st & md & x1 & GA & NgA & KA & ET & GV & MG & L1 & W1 & HM1).
+    destruct (take_ok A repl is_async custom path NA RA NE LD) as (gkA & st & md & x1 & NgA & KA & ET & GV & MG & L1 & W1 & HM1).
     destruct (blocks_in A gkA NA KA) as [BM BF]. pose proof (all_blocks_nodup A gkA NgA) as NMF.
     exists st, md, x1. split; [exact ET|]. split.
     - intros k a p o HA Ho.
@@ -1175,41 +1386,54 @@ End World1.
 (* ================================================================== the theorems in the one-rank world, no law left as a hypothesis *)
 Theorem take_restore_one_rank : forall nobatch table A repl is_async custom path T strict,
   let W := world1 nobatch table in
-  NoDup (map fst A) -> no_rng A -> wf_app A -> nonempty_keys A ->
-  NoDup (map fst T) -> no_rng T -> (forall k t, In (k, t) T -> exists a, In (k, a) A) ->
+  NoDup (map fst A) -> rng_at_most_one A -> wf_app A -> nonempty_keys A ->
+  NoDup (map fst T) -> rng_at_most_one T -> (forall k t, In (k, t) T -> exists a, In (k, a) A) ->
   exists st md x1 gkA gk x2,
-    gather_keys_gen W (sdict_keys A) = Some gkA /\
+    NoDup gkA /\ (forall k, In k (map fst A) -> In k gkA) /\
     take_impl_gen W path A repl [] is_async custom fx0 = Some ((st, md), x1) /\
-    fx_loads x1 = [] /\
+    fx_loads x1 = rng_loads A /\
     fx_writes x1 = map (wcall_of W (w_calc_replicated W (concat (map (blkF A) gkA)) repl) is_async custom) (concat (map (blkF A) gkA)) /\
-    gather_keys_gen W (sdict_keys T) = Some gk /\ NoDup gk /\ (forall k, In k (map fst T) -> In k gk) /\
+    gather_keys_gen W (sdict_keys (non_rng T)) = Some gk /\ NoDup gk /\ (forall k, In k (map fst (non_rng T)) -> In k gk) /\
     restore_gen W (mkSnap md st) T strict fx0 = Some x2 /\
-    fx_loads x2 = expected_loads A T strict gk /\
-    fx_preps x2 = expected_preps W T (fst (w_manifest_for_rank W md (w_rank W))) gk.
+    fx_loads x2 = all_expected_loads A T strict gk /\
+    fx_preps x2 = all_expected_preps W T (fst (w_manifest_for_rank W md (w_rank W))) gk.
 Proof.
   intros nobatch table A repl is_async custom path T strict W NA RA WA NE NT RT TA.
-  exact (take_restore_no_rng W (w1_all_gather nobatch table) (w1_partition nobatch table) (w1_store_exact nobatch table)
+  exact (take_restore W (w1_all_gather nobatch table) (w1_partition nobatch table) (w1_store_exact nobatch table)
            (w1_batch_write nobatch table) (w1_consolidate nobatch table) (w1_view nobatch table) (w1_batch_read nobatch table)
            (w1_elasticity nobatch table) A repl is_async custom path T strict NA RA WA NE (w1_locations nobatch table A NE) NT RT TA).
 Qed.
 
 (* what the closed form of the loads says: exactly the requested statefuls are loaded, each with the state dict its
-   counterpart returned at take time *)
-Lemma expected_loads_in : forall A T strict gk ev, NoDup (map fst A) -> NoDup (map fst T) ->
-  (forall k, In k (map fst T) -> In k gk) -> (forall k t, In (k, t) T -> exists a, In (k, a) A) ->
-  (In ev (expected_loads A T strict gk) <->
+   counterpart returned at take time (the RNGState, if any, last) *)
+Lemma all_expected_loads_in : forall A T strict gk ev, NoDup (map fst A) -> NoDup (map fst T) -> rng_at_most_one T ->
+  (forall k, In k (map fst (non_rng T)) -> In k gk) -> (forall k t, In (k, t) T -> exists a, In (k, a) A) ->
+  (In ev (all_expected_loads A T strict gk) <->
    exists k t a, In (k, t) T /\ In (k, a) A /\ ev = mkLoad (sf_id t) (sf_state a) (strict_of t strict)).
 Proof.
-  intros A T strict gk ev NA NT KT TA. unfold expected_loads. rewrite in_flat_map. split.
-  - intros [k [Hk H]]. destruct (sdict_get k T) as [t|] eqn:GT; [|contradiction]. destruct (sdict_get k A) as [a|] eqn:GA; [|contradiction].
-    destruct H as [H|[]]. exists k, t, a. split; [exact (sdict_get_some_in _ _ _ GT)|]. split; [exact (sdict_get_some_in _ _ _ GA) | symmetry; exact H].
-  - intros [k [t [a [HT [HA E]]]]]. exists k. split; [apply KT; exact (in_sdict_keys _ _ _ HT)|].
-    rewrite (sdict_get_in k t T NT HT), (sdict_get_in k a A NA HA). left. symmetry. exact E.
+  intros A T strict gk ev NA NT UT KT TA. unfold all_expected_loads, rng_restore_load. rewrite in_app_iff. split.
+  - intros [H|H].
+    + unfold expected_loads in H. apply in_flat_map in H. destruct H as [k [Hk H]].
+      destruct (sdict_get k (non_rng T)) as [t|] eqn:GT; [|contradiction]. destruct (sdict_get k A) as [a|] eqn:GA; [|contradiction].
+      destruct H as [H|[]]. exists k, t, a. apply sdict_get_some_in in GT. apply non_rng_in in GT.
+      split; [exact (proj1 GT)|]. split; [exact (sdict_get_some_in _ _ _ GA) | symmetry; exact H].
+    + destruct (rng_item T) as [[k t]|] eqn:RI; [|contradiction]. destruct (sdict_get k A) as [a|] eqn:GA; [|contradiction].
+      destruct H as [H|[]]. exists k, t, a. split; [exact (proj1 (rng_item_in T k t RI))|]. split; [exact (sdict_get_some_in _ _ _ GA) | symmetry; exact H].
+  - intros [k [t [a [HT [HA E]]]]]. destruct (sf_is_rng t) eqn:R.
+    + right. destruct (rng_item T) as [[k' t']|] eqn:RI.
+      * destruct (rng_item_in T k' t' RI) as [HT' R']. assert (k' = k) by (apply (UT k' t' k t HT' HT R' R)). subst k'.
+        rewrite (NoDup_keys_eq T k t' t NT HT' HT). rewrite (sdict_get_in k a A NA HA). left. symmetry. exact E.
+      * exfalso. unfold rng_item in RI. destruct (filter is_rng_item T) eqn:F; [|discriminate].
+        assert (Hin : In (k, t) (filter is_rng_item T)) by (apply filter_In; split; [exact HT | exact R]). rewrite F in Hin. exact Hin.
+    + left. unfold expected_loads. apply in_flat_map. exists k.
+      assert (HT' : In (k, t) (non_rng T)) by (apply non_rng_in; split; assumption).
+      split; [apply KT; exact (in_sdict_keys _ _ _ HT')|].
+      rewrite (sdict_get_in k t (non_rng T) (non_rng_nodup T NT) HT'), (sdict_get_in k a A NA HA). left. symmetry. exact E.
 Qed.
 
 Theorem take_manifest_one_rank : forall nobatch table A repl is_async custom path,
   let W := world1 nobatch table in
-  NoDup (map fst A) -> no_rng A -> nonempty_keys A ->
+  NoDup (map fst A) -> rng_at_most_one A -> nonempty_keys A ->
   exists st md x1,
     take_impl_gen W path A repl [] is_async custom fx0 = Some ((st, md), x1) /\
     let v := view1 md 0 in
@@ -1240,7 +1464,7 @@ Qed.
 
 Theorem take_read_object_one_rank : forall nobatch table A repl is_async custom path out mb,
   let W := world1 nobatch table in
-  NoDup (map fst A) -> no_rng A -> nonempty_keys A ->
+  NoDup (map fst A) -> rng_at_most_one A -> nonempty_keys A ->
   exists st md x1,
     take_impl_gen W path A repl [] is_async custom fx0 = Some ((st, md), x1) /\
     (forall k a p o, In (k, a) A -> In (p, o) (snd (flatten_s (sf_state a) k)) ->
